@@ -7,8 +7,8 @@ for f in ("patch.diff", "seeded_demo.rs"):
     shutil.copy(f"{src}/{f}", f"{dst}/{f}")
 m = json.load(open(f"{src}/meta.json"))
 m["property"] = pid
-m["confirmed_by_me"] = "scratch worktree at /repo HEAD: demo passes without the patch and fails with it; tools/run_baseline.sh with the patch: 403/403 baseline tests pass (/tmp/seed/confirm2.sh)"
+m["confirmed_by_me"] = "scratch worktree at /repo HEAD: demo passes without the patch and fails with it; tools/run_baseline.sh with the patch: 403/403 baseline tests pass (confirm script: demo with the sqlite feature, then tools/run_baseline.sh)"
 m["detected_by"] = det
-m["checked_with"] = f"tools/try_seed.sh {pid} {dst}/patch.diff -> VIOLATION with a concrete replay"
+m["checked_with"] = f"tools/try_seed_iso.sh {pid} {dst}/patch.diff -> VIOLATION with a concrete replay"
 json.dump(m, open(f"{dst}/meta.json", "w"), indent=1, ensure_ascii=False)
 print("stored", dst)
